@@ -85,6 +85,13 @@ def intoSeqUnsorted : Val → Option (List Val)
 def mergeToSequence (c o : Val) : Val :=
   .seq ((intoSeq c).getD [] ++ (intoSeq o).getD [])
 
+/-- `mergeExtraHosts`: the override's entries that the base does not already contain are appended
+(`slices.Contains` compares with `==`; the modelled domain is scalars) -/
+def mergeExtraHosts (c o : Val) : Val :=
+  let right := (intoSeq c).getD []
+  let left := (intoSeq o).getD []
+  .seq (right ++ left.filter (fun v => !(right.contains v)))
+
 /-! ## `mergeMappings` with an abstract per-key combiner -/
 
 /-- `for k, v := range other { e, ok := mapping[k]; if !ok {mapping[k] = v; continue}; mapping[k], err = f k e v }` -/
